@@ -188,6 +188,7 @@ def run(ctx, ck) -> None:
               f'the inverse values are {show(t)}', instance='guarded reciprocal', nontrivial=False)
 
 
+_D7_CACHE: dict = {}
 PX = (3, 5, 7, 11, 13)
 PD = (17, 19, 23, 29)
 
@@ -219,101 +220,161 @@ def _requests(r: int, m: int):
 
 def _placement(ctx, ck, bcast, diag, dinv) -> None:
     """D7: for every order type of the requested axes (values of rank 1..3, leaves of rank 1..3, scalar and tuple requests,
-    negative axes, extension by one or two axes on either side) the abstract product computed by mv has exactly the
-    requested layout: input axis j at position L + j, values axis k at position L + axes[k], and nothing else."""
+    negative axes, extension by one or two axes on either side, and - for ranks up to 2 - values or leaves with axes of
+    size one) the abstract product computed by mv has exactly the NumPy layout: input axis j at position L + j, values axis
+    k at position L + axes[k], the broadcast shape, and nothing else; the strict variant raises exactly when that shape is
+    not the shape of the leaf."""
     from ..axinterp import AxArr, Interp, Raised, Undecided, UNK, Flat, Cat, DiagOf
 
     world, table = ctx.world, ctx.table
+    import hashlib
+
+    from .. import run as _run
+
+    if _run.CONTROL_EXPECT and not _run.CONTROL_EXPECT.endswith('D7'):
+        return  # a positive control of another rule is being replayed
+
+    key = hashlib.sha256('\x00'.join(ast.dump(world.modules[m].tree) for m in ('furax._base.diagonal', 'furax._base.core', 'furax.tree') if m in world.modules).encode()).hexdigest()
+    if key in _D7_CACHE:
+        for args in _D7_CACHE[key]:
+            kind, a, kw = args
+            getattr(ck, kind)(*a, **kw) if kind != 'count' else ck.counts.__setitem__(*a)
+        ck.floor('D7', sum(1 for o in ck.obs if o.rule.endswith('D7')), 9, 'placement obligations')
+        return
+    log: list = []
+
+    real_ck = ck
+
+    class _Rec:
+        def __getattr__(self, kind):
+            def f(*a, **kw):
+                log.append((kind, a, kw))
+                return getattr(real_ck, kind)(*a, **kw)
+            return f
+
+    ck = _Rec()
+
+    def cases():
+        for m in (1, 2, 3):
+            for r in (1, 2, 3):
+                for ad in _requests(r, m):
+                    yield m, r, ad, (False,) * m, (False,) * r
+        import itertools
+
+        for m in (1, 2):
+            for r in (1, 2):
+                for ad in _requests(r, m):
+                    if isinstance(ad, list):
+                        continue
+                    for ux in itertools.product((False, True), repeat=m):
+                        for ud in itertools.product((False, True), repeat=r):
+                            if (any(ux) or any(ud)) and not (any(ux) and any(ud)):
+                                yield m, r, ad, ux, ud
+
     for cls in (bcast, diag, dinv):
         strict = cls is not bcast
-        stats = {'requests': 0, 'legal': 0, 'rejected': 0, 'dup': 0, 'dense': 0}
+        stats = {'requests': 0, 'legal': 0, 'rejected': 0, 'dup': 0, 'dense': 0, 'unit-size cases': 0}
         wrong: list[str] = []
         undecided: list[str] = []
         strict_missed: list[str] = []
         dup_missed: list[str] = []
         dense_wrong: list[str] = []
         mvres = table.resolve(cls, 'mv')
-        for m in (1, 2, 3):
-            for r in (1, 2, 3):
-                for ad in _requests(r, m):
-                    spec = _requested(ad, r, m)
-                    stats['requests'] += 1
-                    it = Interp(world, table, budget=20_000)
-                    leaf = AxArr(tuple((frozenset({f'x{j}'}), PX[j]) for j in range(m)))
-                    if spec == 'dup':
-                        sizes = [PD[k] for k in range(r)]
-                    else:
-                        sizes = [PX[a] if 0 <= a < m else PD[k] for k, a in enumerate(spec[0])]
-                    values = AxArr(tuple((frozenset({f'd{k}'}), sizes[k]) for k in range(r)))
-                    what = f'values rank {r}, axis_destination={ad!r}, leaf rank {m}'
-                    try:
-                        op = it.construct(diag if cls is dinv else cls, values, axis_destination=ad, in_structure=leaf)
-                        if cls is dinv:
-                            op = it.construct(dinv, op)
-                        res = it.call_method(op, 'mv', leaf)
-                    except Raised as e:
-                        if spec == 'dup':
-                            stats['dup'] += 1
-                        elif strict and (spec[1] or spec[2]):
-                            stats['rejected'] += 1
-                        else:
-                            wrong.append(f'{what}: a legal request raises {e.name}')
-                        continue
-                    except Undecided as e:
-                        undecided.append(f'{what}: {e}')
-                        continue
-                    if spec == 'dup':
-                        if not it.degraded and res is not UNK:
-                            dup_missed.append(what)
-                        continue
-                    axes, left, right = spec
-                    if strict and (left or right):
-                        if not it.degraded:
-                            strict_missed.append(what)
-                        continue
-                    if not isinstance(res, AxArr):
-                        undecided.append(f'{what}: the result of mv is not an array the interpreter can follow ({it.degraded[:1]})')
-                        continue
-                    total = left + m + right
-                    want = [set() for _ in range(total)]
-                    for j in range(m):
+        for m, r, ad, ux, ud in cases():
+            spec = _requested(ad, r, m)
+            stats['requests'] += 1
+            stats['unit-size cases'] += bool(any(ux) or any(ud))
+            it = Interp(world, table, budget=20_000)
+            xsize = [1 if ux[j] else PX[j] for j in range(m)]
+            if spec == 'dup':
+                dsize = [PD[k] for k in range(r)]
+            else:
+                dsize = [1 if ud[k] else (PX[a] if 0 <= a < m else PD[k]) for k, a in enumerate(spec[0])]
+            leaf = AxArr(tuple((frozenset({f'x{j}'}), xsize[j]) for j in range(m)))
+            values = AxArr(tuple((frozenset({f'd{k}'}), dsize[k]) for k in range(r)))
+            what = f'values of shape {tuple(dsize)}, axis_destination={ad!r}, leaf of shape {tuple(xsize)}'
+            # ---- the specification (NumPy broadcasting of the laid-out values against the leaf)
+            want_shape = want = None
+            if spec != 'dup':
+                axes, left, right = spec
+                total = left + m + right
+                want_shape = [1] * total
+                want = [set() for _ in range(total)]
+                for j in range(m):
+                    want_shape[left + j] = xsize[j]
+                    if xsize[j] != 1:
                         want[left + j].add(f'x{j}')
-                    for k, a in enumerate(axes):
+                for k, a in enumerate(axes):
+                    want_shape[left + a] = max(want_shape[left + a], dsize[k])
+                    if dsize[k] != 1:
                         want[left + a].add(f'd{k}')
-                    got = [set(l) for l in res.layout()]
-                    stats['legal'] += 1
-                    if got != want:
-                        wrong.append(f'{what}: the product has layout {res!r}, requested {AxArr(tuple((frozenset(w), 0) for w in want))!r}')
-                        continue
-                    # dense form of the strict variant: what is broadcast to the leaf shape and ravelled
-                    if strict:
-                        try:
-                            op.attrs.setdefault('_in_structure', leaf)
-                            dense = it.call_method(op, 'as_matrix')
-                        except (Raised, Undecided):
-                            continue
-                        parts = dense.of.parts if isinstance(dense, DiagOf) and isinstance(dense.of, Cat) else None
-                        if parts and len(parts) == 1 and isinstance(parts[0], Flat) and isinstance(parts[0].of, AxArr):
-                            stats['dense'] += 1
-                            got = [set(l) - {f'x{j}' for j in range(m)} for l in parts[0].of.layout()]
-                            wantd = [{x for x in w if x.startswith('d')} for w in want]
-                            if got != wantd or parts[0].of.shape != leaf.shape:
-                                dense_wrong.append(f'{what}: as_matrix ravels {parts[0].of!r}')
+            must_reject = spec != 'dup' and strict and tuple(want_shape) != tuple(xsize)
+            units = {f'x{j}' for j in range(m) if xsize[j] == 1} | {f'd{k}' for k in range(r) if dsize[k] == 1}
+            try:
+                op = it.construct(diag if cls is dinv else cls, values, axis_destination=ad, in_structure=leaf)
+                if cls is dinv:
+                    op = it.construct(dinv, op)
+                res = it.call_method(op, 'mv', leaf)
+            except Raised as e:
+                if spec == 'dup':
+                    stats['dup'] += 1
+                elif must_reject:
+                    stats['rejected'] += 1
+                else:
+                    wrong.append(f'{what}: a legal request raises {e.name}')
+                continue
+            except Undecided as e:
+                undecided.append(f'{what}: {e}')
+                continue
+            if spec == 'dup':
+                if not it.degraded and res is not UNK:
+                    dup_missed.append(what)
+                continue
+            if must_reject:
+                if not it.degraded:
+                    strict_missed.append(f'{what} (the product has shape {tuple(want_shape)})')
+                continue
+            if not isinstance(res, AxArr):
+                undecided.append(f'{what}: the result of mv is not an array the interpreter can follow ({it.degraded[:1]})')
+                continue
+            got = [set(l) - units for l in res.layout()]
+            stats['legal'] += 1
+            if got != want or list(res.shape) != want_shape:
+                wrong.append(f'{what}: the product has layout {res!r} and shape {res.shape}, requested {AxArr(tuple((frozenset(w), 0) for w in want))!r} with shape {tuple(want_shape)}')
+                continue
+            # dense form of the strict variant: what is broadcast to the leaf shape and ravelled
+            if strict:
+                try:
+                    op.attrs.setdefault('_in_structure', leaf)
+                    dense = it.call_method(op, 'as_matrix')
+                except (Raised, Undecided):
+                    continue
+                parts = dense.of.parts if isinstance(dense, DiagOf) and isinstance(dense.of, Cat) else None
+                if parts and len(parts) == 1 and isinstance(parts[0], Flat) and isinstance(parts[0].of, AxArr):
+                    stats['dense'] += 1
+                    gotd = [set(l) - units - {f'x{j}' for j in range(m)} for l in parts[0].of.layout()]
+                    wantd = [{x for x in w if x.startswith('d')} for w in want]
+                    if gotd != wantd or parts[0].of.shape != leaf.shape:
+                        dense_wrong.append(f'{what}: as_matrix ravels {parts[0].of!r}')
         fn = mvres.node if mvres else cls.node
         if undecided:
             ck.incomplete('D7', fn, f'{cls.name}: the placement of the values could not be followed for {len(undecided)} of {stats["requests"]} requests, e.g. {undecided[0]}', instance=f'{cls.name} placement')
         else:
             ck.expect('D7', not wrong, fn,
-                      f'{cls.name}: for all {stats["legal"]} legal order types of the request (values rank 1-3, leaf rank 1-3, scalar / tuple / negative / extending axes) the product has input axis j at L+j and values axis k at L+axes[k]',
+                      f'{cls.name}: for all {stats["legal"]} legal order types of the request (values rank 1-3, leaf rank 1-3, scalar / tuple / negative / extending axes, axes of size one) the product has input axis j at L+j, values axis k at L+axes[k] and the broadcast shape',
                       f'{cls.name}: the values do not land on the requested axes for {len(wrong)} of {stats["requests"]} requests, e.g. {wrong[0] if wrong else ""}', instance=f'{cls.name} placement')
         if strict:
-            ck.expect('D7', not strict_missed, fn, f'{cls.name}: all {stats["rejected"]} requests that would change the leaf shape raise',
-                      f'{cls.name}: a request that changes the leaf shape is accepted, e.g. {strict_missed[0] if strict_missed else ""}', instance=f'{cls.name} strict rejection')
+            ck.expect('D7', not strict_missed, fn, f'{cls.name}: all {stats["rejected"]} requests whose product does not have the shape of the leaf raise',
+                      f'{cls.name}: a request that changes the shape of the leaf is accepted, e.g. {strict_missed[0] if strict_missed else ""}', instance=f'{cls.name} strict rejection')
             ck.expect('D7', not dense_wrong, fn, f'{cls.name}: as_matrix lays the values out like mv ({stats["dense"]} requests followed)',
                       f'{cls.name}: {dense_wrong[0] if dense_wrong else ""}', instance=f'{cls.name} dense placement', nontrivial=bool(stats['dense']))
         ck.expect('D7', not dup_missed, fn, f'{cls.name}: all {stats["dup"]} requests with colliding axes raise',
                   f'{cls.name}: colliding axes are accepted, e.g. {dup_missed[0] if dup_missed else ""}', instance=f'{cls.name} colliding axes')
-        ck.counts[f'D7:{cls.name} requests'] = stats['requests']
+        for k_, v_ in ((f'D7:{cls.name} requests', stats['requests']), (f'D7:{cls.name} unit-size cases', stats['unit-size cases'])):
+            real_ck.counts[k_] = v_
+            log.append(('count', (k_, v_), {}))
+    ck = real_ck
+    _D7_CACHE[key] = log
     ck.floor('D7', sum(1 for o in ck.obs if o.rule.endswith('D7')), 9, 'placement obligations')
 
 
@@ -322,5 +383,6 @@ def controls(world: World) -> list[Control]:
         Control('scalar-check-dropped', lambda w: edit_def(w, DIAG, 'BroadcastDiagonalOperator.__init__', lambda fn: remove_stmt(fn, 'if diagonal.ndim == 0:', prefix=True)), 'C11.D1'),
         Control('eager-check-dropped', lambda w: edit_def(w, DIAG, 'BroadcastDiagonalOperator.__init__', lambda fn: remove_stmt(fn, '_ = AbstractLinearOperator.out_structure(self)')), 'C11.D1'),
         Control('strict-guard-dropped', lambda w: edit_def(w, DIAG, 'DiagonalOperator._check_leaf_shapes', lambda fn: remove_stmt(fn, 'if shape != input_shape:', prefix=True)), 'C11.D2'),
+        Control('moveaxis-arguments-swapped', lambda w: edit_def(w, DIAG, 'BroadcastDiagonalOperator._reshape_diagonal', lambda fn: replace_expr(fn, 'jnp.moveaxis(reshaped_diagonal_leaf, range(len(axes)), axes)', 'jnp.moveaxis(reshaped_diagonal_leaf, axes, range(len(axes)))')), 'C11.D7'),
         Control('reads-structure', lambda w: edit_def(w, DIAG, 'BroadcastDiagonalOperator._reshape_input_leaf', lambda fn: replace_expr(fn, 'max(0, max(axes) - input_leaf.ndim + 1)', 'max(0, max(axes) - len(jax.tree.leaves(self._in_structure)[0].shape) + 1)')), 'C11.D4'),
     ]
